@@ -56,7 +56,7 @@ class Sphere(Domain):
 
     def _get_volume(self, params=Points.empty(), device="cpu"):
         radius = self.radius(params, device=device)
-        volume = 3.0 / 4.0 * np.pi * radius**3
+        volume = 4.0 / 3.0 * np.pi * radius**3
         return volume.reshape(-1, 1)
 
     def sample_random_uniform(
